@@ -19,7 +19,8 @@ RULE = ('culture strings (supported codes in random letter case, ll-RR variants 
         'languages with and without region, empty string, None) x the 16 model getters of the five recognisers x options (0 for number/unit/'
         'sequence/choice; 0..4 and out-of-range values for date-time) x fallback flag x target culture of the recogniser; the finite table is '
         'enumerated, and a rule-based machine issues the requests in arbitrary order through fresh recognisers, long-lived recognisers and the '
-        'recognize_* helpers with cache clears in between; non-trivial = history with >= 3 distinct cache keys of one model type or an '
+        'recognize_* helpers with cache clears in between; culture-convention probes typed into the harness (1200 in words, a grouped decimal, a '
+        'percentage, tomorrow, a currency amount per culture) must be read by the model served for that culture code in three letter cases; non-trivial = history with >= 3 distinct cache keys of one model type or an '
         'exception path (table part: request whose culture string is not literally a supported code); distinct = distinct request / history')
 ASSUMPTIONS = ['the list of supported culture codes is typed into the harness from the documentation (13 codes)',
                'which (type, culture) pairs a recogniser registers is read from its registration table; the expected model is built directly '
@@ -433,9 +434,72 @@ def replay_trace(case):
     return R(vs, nontrivial=True)
 
 
+# ---- the served model speaks the requested culture (expectations typed into the harness, independent of the registration table) -------------
+WORDS_1200 = {'en-us': 'one thousand two hundred', 'es-es': 'mil doscientos', 'es-mx': 'mil doscientos', 'fr-fr': 'mille deux cent trois',
+              'pt-br': 'mil e duzentos', 'de-de': 'eintausendzweihundert', 'it-it': 'milleduecento', 'nl-nl': 'twaalfhonderd', 'zh-cn': '一千二百',
+              'ja-jp': '千二百'}
+DECIMAL_COMMA = {'es-es', 'fr-fr', 'pt-br', 'de-de', 'it-it', 'nl-nl'}
+TOMORROW = {'en-us': 'tomorrow', 'es-es': 'mañana', 'fr-fr': 'demain', 'pt-br': 'amanhã', 'de-de': 'morgen', 'it-it': 'domani', 'nl-nl': 'morgen',
+            'zh-cn': '明天'}
+UNIT_PROBE = {'en-us': ('$ 2.5', '2.5'), 'es-mx': ('$ 2.5', '2.5'), 'es-es': ('2,5 euros', '2,5'), 'fr-fr': ('2,5 euros', '2,5'),
+              'pt-br': ('2,5 euros', '2,5'), 'de-de': ('2,5 euro', '2,5'), 'it-it': ('2,5 euro', '2,5'), 'nl-nl': ('2,5 euro', '2,5')}
+
+
+def convention_probes():
+    """(getter, culture code as requested, probe query, expected resolution value)"""
+    out = []
+    for c, w in WORDS_1200.items():
+        if c != 'ja-jp':
+            out.append(('number', c, w, '1203' if c == 'fr-fr' else '1200'))     # (French plural 'cents' is a known C04 finding)
+        lit, val = ('1.234,5', '1234,5') if c in DECIMAL_COMMA else ('1,234.5', '1234.5')
+        if c in ('zh-cn', 'ja-jp'):
+            lit = '1234.5'                                                        # (grouped CJK percentages are a known C03 finding)
+        out.append(('number', c, lit, val))
+        out.append(('percentage', c, lit + '%', val + '%'))
+        lit2, val2 = ('12,5', '12,5') if c in DECIMAL_COMMA else ('12.5', '12.5')
+        out.append(('percentage', c, lit2 + '%', val2 + '%'))
+    for c, w in TOMORROW.items():
+        out.append(('datetime', c, w, '2016-11-08'))
+    for c, (qq, val) in UNIT_PROBE.items():
+        out.append(('currency', c, qq, val))
+    return out
+
+
+def convention_cases():
+    for getter, c, q, val in convention_probes():
+        for code in (c, c.upper(), c[:2] + c[2:].upper()):
+            for longlived in (False, True):
+                yield {'getter': getter, 'culture': code, 'probe': q, 'expected_value': val, 'longlived': longlived}
+
+
+def run_convention(case):
+    getter = case['getter']
+    req = {'getter': getter, 'culture': case['culture'], 'fallback': False, 'options': 0, 'target': None}
+    out = perform(req, case['longlived'])
+    vs = []
+    got = None
+    if out[0] != 'model':
+        vs.append(V('ERROR_INSTEAD_OF_MODEL', {'request': req, 'got': out[1]}, bucket='CONV_ERR:%s' % getter))
+    else:
+        rs = out[2].parse(case['probe'], REF) if getter == 'datetime' else out[2].parse(case['probe'])
+        got = [[r.text, json.dumps(r.resolution, sort_keys=True, ensure_ascii=False, default=str)] for r in rs]
+        vals = []
+        for r in rs:
+            res = r.resolution or {}
+            if getter == 'datetime':
+                vals += [v.get('value') for v in res.get('values', [])]
+            else:
+                vals.append(res.get('value'))
+        if len(rs) != 1 or vals[:1] != [case['expected_value']]:
+            vs.append(V('MODEL_DOES_NOT_SPEAK_THE_CULTURE', {'request': req, 'probe': case['probe'], 'expected_value': case['expected_value'], 'got': got},
+                        bucket='CONV:%s:%s' % (getter, case['culture'].lower())))
+    return R(vs, nontrivial=True, labels=['convention:' + getter], obs={'probe': case['probe'], 'got': got}, key=case)
+
+
 def parts(tier, seed):
     q = tier == 'quick'
     return [
         enum_part('routing-table', table(q), run_request, exhaustive=True),
+        enum_part('culture-conventions', convention_cases, run_convention, exhaustive=True),
         machine_part('histories', make_machine, 80 if q else 1500, steps=30 if q else 50, min_shard=5, replay=replay_trace, hang_s=120),
     ]
